@@ -1,6 +1,6 @@
 //! Correspondence stream PARSE: the stream parser on emitted streams and on mutants of them.
 //! Case: PARSE <id> <orig-audio-hash> <kind> <hexbytes>
-//!   kind: orig | flip | burst | trunc | random | meta
+//!   kind: orig | flip | burst | trunc | random | meta | hdr (a header field of the first frame rewritten, CRC-8 and CRC-16 recomputed)
 use crate::rng::Rng;
 use crate::s_enc;
 use crate::s_sink::hex;
@@ -35,7 +35,7 @@ fn pick_rate(r: &mut Rng) -> usize {
     }
 }
 
-fn small_stream(r: &mut Rng) -> Option<(Vec<u8>, String)> {
+fn small_stream(r: &mut Rng) -> Option<(Vec<u8>, String, usize)> {
     let mut c = sig::gen_valid_cfg(r);
     let ch = *r.pick(&[1usize, 1, 2, 2, 3]);
     let bps = *r.pick(&[8usize, 16, 16, 24]);
@@ -45,7 +45,54 @@ fn small_stream(r: &mut Rng) -> Option<(Vec<u8>, String)> {
     c.bs = bs;
     let case = s_enc::Case { cfg: c, rate: pick_rate(r), ch, bps, bs, samples: s.clone() };
     let stream = s_enc::encode(&case).ok()?;
-    Some((s_enc::stream_bytes(&stream), fnv(&s)))
+    let f0 = stream.frame(0).map_or(0, |f| flacenc::component::BitRepr::count_bits(f) / 8);
+    Some((s_enc::stream_bytes(&stream), fnv(&s), f0))
+}
+
+fn crc8(bs: &[u8]) -> u8 { let mut r = 0u8; for b in bs { r ^= *b; for _ in 0..8 { r = if r & 0x80 != 0 { (r << 1) ^ 0x07 } else { r << 1 }; } } r }
+fn crc16(bs: &[u8]) -> u16 { let mut r = 0u16; for b in bs { r ^= (*b as u16) << 8; for _ in 0..8 { r = if r & 0x8000 != 0 { (r << 1) ^ 0x8005 } else { r << 1 }; } } r }
+fn utf8like(v: u64) -> Vec<u8> {
+    if v < 0x80 { return vec![v as u8]; }
+    let lims = [1u64 << 11, 1 << 16, 1 << 21, 1 << 26, 1 << 31, 1 << 36];
+    let k = 1 + lims.iter().position(|l| v < *l).unwrap_or(5);          // continuation bytes
+    let lead_mask: u8 = if k == 6 { 0xFE } else { (0xFFu16 << (7 - k)) as u8 };
+    let mut out = vec![lead_mask | ((v >> (6 * k)) as u8 & (0x7F >> (k + 1)).max(0))];
+    for j in (0..k).rev() { out.push(0x80 | ((v >> (6 * j)) & 0x3F) as u8); }
+    out
+}
+
+/// Rewrites one field of the first frame's header (the frame starts at byte 42, is `flen` bytes long) and makes both
+/// CRCs consistent again, so that the parser gets past them: reserved / unusual codes, every class of coded number.
+fn rewrite_header(r: &mut Rng, bytes: &[u8], flen: usize) -> Option<Vec<u8>> {
+    let at = 42usize;
+    if flen < 8 || bytes.len() < at + flen { return None; }
+    let f = &bytes[at..at + flen];
+    let (mut b1, mut b2, mut b3) = (f[1], f[2], f[3]);
+    let nlen = match f[4] { 0..=0x7F => 1, 0xC0..=0xDF => 2, 0xE0..=0xEF => 3, 0xF0..=0xF7 => 4, 0xF8..=0xFB => 5, 0xFC..=0xFD => 6, 0xFE => 7, _ => return None };
+    let xlen = |bs: u8, sr: u8| -> usize { (match bs { 6 => 1, 7 => 2, _ => 0 }) + (match sr { 12 => 1, 13 | 14 => 2, _ => 0 }) };
+    let old_hlen = 4 + nlen + xlen(b2 >> 4, b2 & 15) + 1;
+    if flen < old_hlen + 2 { return None; }
+    let mut num: Vec<u8> = f[4..4 + nlen].to_vec();
+    match r.below(8) {
+        0 => b2 = (b2 & 0x0F) | ((r.below(16) as u8) << 4),                 // block-size code, incl. reserved 0
+        1 => b2 = (b2 & 0xF0) | (r.below(16) as u8),                        // sample-rate code, incl. invalid 15
+        2 => b3 = (b3 & 0x0F) | ((r.below(16) as u8) << 4),                 // channel assignment, incl. reserved 11..15
+        3 => b3 = (b3 & 0xF1) | ((r.below(8) as u8) << 1),                  // sample-size code, incl. reserved 3
+        4 => b3 ^= 1,                                                       // reserved bit
+        5 => b1 ^= if r.chance(1, 2) { 1 } else { 2 },                      // blocking strategy / reserved bit of the sync word
+        _ => { let lims = [0u64, 1 << 7, 1 << 11, 1 << 16, 1 << 21, 1 << 26, 1 << 31, 1 << 36];
+               let k = 1 + r.below(7) as usize; let v = match r.below(3) { 0 => lims[k - 1], 1 => lims[k] - 1, _ => lims[k - 1] + r.below(lims[k] - lims[k - 1]) };
+               num = utf8like(v); }
+    }
+    let mut h: Vec<u8> = vec![f[0], b1, b2, b3];
+    h.extend_from_slice(&num);
+    for _ in 0..xlen(b2 >> 4, b2 & 15) { h.push(r.below(256) as u8); }
+    let c8 = crc8(&h); h.push(c8);
+    let mut frame = h;
+    frame.extend_from_slice(&f[old_hlen..flen - 2]);
+    let c16 = crc16(&frame); frame.push((c16 >> 8) as u8); frame.push(c16 as u8);
+    let mut out = bytes[..at].to_vec(); out.extend_from_slice(&frame); out.extend_from_slice(&bytes[at + flen..]);
+    Some(out)
 }
 
 pub fn gen(seed: u64, n: usize, out: &mut String) {
@@ -54,7 +101,7 @@ pub fn gen(seed: u64, n: usize, out: &mut String) {
     // VERIF_PARSE_EXHAUSTIVE=1: every single-bit flip of every frame byte of each base stream
     let exhaustive = std::env::var("VERIF_PARSE_EXHAUSTIVE").map_or(false, |v| v == "1");
     while i < n {
-        let (bytes, h) = match small_stream(&mut r) { Some(x) => x, None => continue };
+        let (bytes, h, f0len) = match small_stream(&mut r) { Some(x) => x, None => continue };
         writeln!(out, "PARSE p{} {} orig {}", i, h, hex(&bytes)).unwrap(); i += 1;
         let frames_at = 42usize;
         if bytes.len() <= frames_at { continue; }
@@ -67,7 +114,8 @@ pub fn gen(seed: u64, n: usize, out: &mut String) {
         for _ in 0..24 {
             if i >= n { break; }
             let mut m = bytes.clone();
-            let kind = match r.below(10) {
+            let kind = match r.below(12) {
+                10 | 11 => { match rewrite_header(&mut r, &bytes, f0len) { Some(x) => { m = x; "hdr" } None => "orig" } }
                 0..=4 => { let b = r.below(nbits as u64) as usize; m[frames_at + b / 8] ^= 0x80 >> (b % 8); "flip" }
                 5..=7 => { // a run of 2..8 bits starting anywhere, first and last bit of the run flipped, the rest random
                     let len = 2 + r.below(7) as usize; let b0 = r.below((nbits - len) as u64) as usize;
